@@ -370,6 +370,10 @@ class EAbstractSet(ECollection):
 
     append = add
 
+    def __setitem__(self, index, item):
+        self.check(item)
+        super().__setitem__(index, item)
+
     def update(self, others):
         check = self.check
         add = super().add
